@@ -183,3 +183,27 @@ fn c16a_lzma1_reader_one_literal_ff() { lzma1_reader_one_literal([0x00, 0x7f, 0x
 fn c16a_lzma1_reader_one_literal_end_marker() {
     lzma1_reader_one_literal([0x00, 0x20, 0xc3, 0xeb, 0xff, 0xff, 0xff, 0xe1, 0x00, 0x00, 0x00], 0x41, true);
 }
+
+// C06-C (K4, read after an error): a hostile .lzma payload whose first symbol is a match with a distance beyond the
+// (empty) dictionary: the first read() fails with a data error; every further read() must fail again - it must not
+// continue decoding from the half-updated coder state (rep0 unvalidated -> index panic in LZDecoder::get_byte).
+// The stream bytes are concrete (they were found natively; a symbolic tail makes CBMC walk every symbol kind of the
+// second decode and the harness for it did not finish in 90 min); symbolic: how the caller sizes its second buffer.
+//@ {"name":"c06c_lzma1_read_after_error","props":["C06","C05"],"obligation":"C06-C","timeout":1200,"mem_gb":9,"functions":["lzma_reader::LZMAReader::read","lzma_reader::LZMAReader::read_decode","decoder::LZMADecoder::decode","decoder::LZMADecoder::decode_match","lz::lz_decoder::LZDecoder::repeat","lz::lz_decoder::LZDecoder::get_byte"],"bounds":"stream 00 ad 76 36 74 ec 79 cf ea 8b 8e 15 03 fd 9e 1f ff b8 75 4f (concrete), lc=lp=pb=0, dict 4096, unknown size; three read calls into an 8-byte buffer; unwind 24","assumes":["LZMADecoder::new replaced by its literal-built stub (natively compared with the real constructor)"],"stubs":["LZMADecoder::new -> verif_fresh_decoder"],"no_inputs":true}
+#[kani::proof]
+#[kani::unwind(24)]
+#[kani::stub(crate::decoder::LZMADecoder::new, crate::decoder::verif_stubs_dec::verif_fresh_decoder)]
+fn c06c_lzma1_read_after_error() {
+    let b: [u8; 20] = [0x00, 0xad, 0x76, 0x36, 0x74, 0xec, 0x79, 0xcf, 0xea, 0x8b, 0x8e, 0x15, 0x03, 0xfd, 0x9e, 0x1f, 0xff, 0xb8, 0x75, 0x4f];
+    let mut src = Src::<20>::new(b, 20);
+    let mut rd = LZMAReader::new(&mut src, u64::MAX, 0, 0, 0, 4096, None).unwrap();
+    let mut out = [0u8; 8];
+    let r1 = rd.read(&mut out);
+    assert!(r1.is_err(), "first symbol is a match into an empty dictionary: must be refused");
+    let r2 = rd.read(&mut out);
+    assert!(r2.is_err(), "C06-C: read() after a decoding error must keep failing, not decode from the broken state");
+    let r3 = rd.read(&mut out);
+    assert!(r3.is_err(), "C06-C: read() after a decoding error must keep failing, not decode from the broken state");
+    kani::cover!(true, "end reached");
+    core::mem::forget(rd);
+}
